@@ -82,7 +82,7 @@ def _prim(r: random.Random, o: Opts, allow_enum=True) -> dict:
         t = s.get("type")
         if "enum" in s:
             safe = [v for v in s["enum"] if re.fullmatch(r"[A-Za-z][A-Za-z0-9 _-]*", v)]
-            cand = safe if o.mainstream else s["enum"]
+            cand = s["enum"]          # F53 repaired: every value may be a default (was: only [A-Za-z][A-Za-z0-9 _-]* in mainstream documents)
             if cand:
                 s["default"] = r.choice(cand)
         elif t == "string" and "format" not in s:
@@ -186,7 +186,9 @@ def gen_schemas(r: random.Random, o: Opts) -> dict:
         # colliding schemas are leaf objects nobody references: references to de-collided classes are a recorded defect (F54)
         earlier = [n for n in names[:i] if n not in colliding]
         if name in colliding:
-            pn = r.sample([p for p in PROP_NAMES if p not in ("class", "type")], r.randint(1, 4))
+            # (a property whose class-cased name starts with the schema's name is taken for the schema itself: F36 -> F1; keep those out)
+            pn = r.sample([p for p in PROP_NAMES if p not in ("class", "type") and not re.sub(r"[^a-z0-9]", "", p.lower()).startswith(re.sub(r"[^a-z0-9]", "", name.lower()))],
+                          r.randint(1, 4))
             schemas[name] = {"type": "object", "properties": {p: _prim0(r, o, allow_enum=False) for p in pn}}
             continue
         kind = r.random()
@@ -195,7 +197,7 @@ def gen_schemas(r: random.Random, o: Opts) -> dict:
             if o.defaults and r.random() < 0.7:
                 # F53: the default's member name is derived by upper()/-/space replacement only, unlike EnumGenerator's member names
                 safe = [v for v in schemas[name]["enum"] if re.fullmatch(r"[A-Za-z][A-Za-z0-9 _-]*", v)]
-                cand = safe if o.mainstream else schemas[name]["enum"]
+                cand = schemas[name]["enum"]          # F53 repaired
                 if cand:
                     schemas[name]["default"] = r.choice(cand)
             continue
